@@ -217,6 +217,12 @@ PROPS['C18'] = {
         'scaled values are compared to raw*scale with relative tolerance 2e-6 (float32 arithmetic)'],
 }
 
+for _p in PROPS.values():
+    # wall-clock guard: runs not started before the deadline are skipped and
+    # counted in the evidence (runs_skipped_budget); a loaded machine explores
+    # less, it never turns a timeout into a verdict
+    _p.setdefault('budget_s', {'quick': 240, 'thorough': 6 * 3600})
+
 MANIFEST_TEXT = {
     'C05': {
         'text': ('Seeded search over schedules: thousands of simulated runs, '
